@@ -774,7 +774,7 @@ nnls_normal_block3(cholmod_sparse *AtA, cholmod_dense *Atb, int verbose,
         long nFprime, nGprime, nF_, nG_;
         int i, j, k;
         int iter, max_iter, solves, residual_calcs;
-        int feasible;
+        int feasible, stationary;
         clock_t t0, t1;
         double kkt_tolerance, y_min, residual;
 
@@ -783,6 +783,7 @@ nnls_normal_block3(cholmod_sparse *AtA, cholmod_dense *Atb, int verbose,
         solves = 0;
         residual_calcs = 0;
         residual = DBL_MAX;
+        stationary = true;
 
         /* Heuristic stopping tolerance inspired from Adlers' thesis */
         kkt_tolerance = ((double)(nvar)) * DBL_EPSILON * 1e5;
@@ -918,7 +919,7 @@ nnls_normal_block3(cholmod_sparse *AtA, cholmod_dense *Atb, int verbose,
                  * If we've satisfied the KKT conditions, we're done. 
                  */
 
-                if (nH2 == 0) break;
+                if (nH2 == 0 && stationary) break;
 
                 ninf = nH1 + nH2;
 
@@ -944,8 +945,9 @@ nnls_normal_block3(cholmod_sparse *AtA, cholmod_dense *Atb, int verbose,
                  * F, G, H1, H2, and the associated counts are updated on
                  * exit.
                  */
-                        L = modify_factor(AtA, L, F, &nF, G, &nG, H1, &nH1, 
-                            H2, &nH2, verbose, c);
+                        if (nH1 + nH2 > 0)
+                                L = modify_factor(AtA, L, F, &nF, G, &nG,
+                                    H1, &nH1, H2, &nH2, verbose, c);
 
                         if (verbose) t0 = clock();
 
@@ -1023,6 +1025,7 @@ nnls_normal_block3(cholmod_sparse *AtA, cholmod_dense *Atb, int verbose,
                                             ((double*)(x_F->x))[i];
                                 cholmod_l_free_dense(&x_F, c);
                                 feasible = true;
+                                stationary = true;
 
                                 if (verbose)
                                         printf("\tSolution entirely "
@@ -1089,6 +1092,7 @@ nnls_normal_block3(cholmod_sparse *AtA, cholmod_dense *Atb, int verbose,
                                 feasible = walk_descents(AtA_F, Atb_F, x, x_F,
                                     F, &nF, H1, &nH1, &residual,
                                     &residual_calcs, verbose, c);
+                                stationary = false;
 
                         } /* if (nF_inf == 0) */
 
